@@ -99,6 +99,13 @@ def gen_state(rng):
             par = rng.choice(cands)
             rps[u] = {'name': 'p%d' % (i + 1), 'parent': par, 'root': rps[par]['root']}
             depth[u] = depth[par] + 1
+    # names are compared exactly: some carry blanks at an end (legal), and the listing checks ask for both spellings
+    for u in uu:
+        r_ = rng.random()
+        if r_ < 0.12:
+            rps[u]['name'] = ' ' + rps[u]['name']
+        elif r_ < 0.24:
+            rps[u]['name'] = rps[u]['name'] + ' '
     roots = uu[:n_roots]
     traits = {u: set() for u in uu}
     aggs = {u: set() for u in uu}
